@@ -319,11 +319,33 @@ class Custom(Op):
     shard = None
     model = True
 
+    def year_boundary_point(self, rng, m):
+        """A whole-second point within a few days of 1 January, late or early in the day, so that a
+        literal zone in the format moves it across midnight (and possibly across the calendar- or
+        week-year boundary), in any of the three representations."""
+        ned = rng.choice([0, 0, 2])
+        y = rng.choice([1, 4, 1999, 2000, 2004, 2005, 2009, 2010, 2015, 2016, 2020, 2021, 2025, 2026, 9998])
+        n = oracle.dby(m, y) + rng.randint(-5, 4)
+        rep = rng.choice("cow")
+        if rep == "c":
+            yy, a, b = oracle.cal_of_day_num(m, n)
+        elif rep == "o":
+            (yy, a), b = oracle.ord_of_day_num(m, n), 0
+        else:
+            yy, a, b = oracle.week_of_day_num(m, n)
+        hh = rng.choice([0, 0, 1, 2, 21, 22, 23, 23])
+        tz = rng.choice([(0, 0), (0, 0), (1, 0), (-1, 0), (5, 30), (-3, -30), (12, 0), (-11, 0)])
+        return (ned, rep, yy, a, b, hh, rng.choice([0, 30, 59]), rng.choice([0, 59]), "", "", tz[0], tz[1])
+
     def gen(self, rng, tier, boost):
         n = (5000 if tier == "quick" else 30000) * boost
-        for _ in range(n):
+        nb = n // 5 if self.model else 0
+        for k in range(n + nb):
             m = gens.mode(rng)
-            pt = gen_point(rng, m, decimals=self.model is False or rng.random() < 0.25)
+            if k >= n:
+                pt = self.year_boundary_point(rng, m)
+            else:
+                pt = gen_point(rng, m, decimals=self.model is False or rng.random() < 0.25)
             ned = pt[0]
             fk = rng.choice(["extended", "basic"])
             dfmt = rng.choice(DATE_FORMATS[fk])
